@@ -93,3 +93,25 @@ Theorem C13_with_name_has_name : forall (B : backend) (u : url) (nm : str) (kq k
   raw_name u' = Q B PATH_QUOTER nm /\ name B u' = nm.
 Proof. exact with_name_readback. Qed.
 Print Assumptions C13_with_name_has_name.
+
+(** joinpath(a, c) = joinpath(a).joinpath(c): for EVERY base URL, every pair of texts and
+    either value of encoded, values and failures alike, whenever no dot-segment removal is
+    triggered - the URL has no authority, or neither quoted argument contains a '.'.  (With
+    an authority and dot segments the two differ exactly through F23: a '..' at the root pops
+    the root marker in one call but not across two.) *)
+From Yarl Require Import Proofs.AssocProofs.
+Theorem C13_joinpath_associative : forall (B : backend) (u : url) (a c : str) (enc : bool),
+  (nonempty (u_netloc u) = false \/ (mem 46%N (qarg B enc a) = false /\ mem 46%N (qarg B enc c) = false)) ->
+  joinpath B u [a; c] enc = (do u1 <- joinpath B u [a] enc; joinpath B u1 [c] enc).
+Proof. exact joinpath_assoc. Qed.
+Print Assumptions C13_joinpath_associative.
+
+(** u / "a/c" = u.joinpath(a, c) for a non-empty a that does not end in '/' and a c that does
+    not start with one - with or without dot segments (both are one _make_child call over
+    the same segments, because the path quoter distributes over the literal '/') *)
+Theorem C13_div_two_is_joinpath : forall (B : backend) (u : url) (a : str) (x : N) (c : str),
+  valid_str (a ++ [x]) -> no_sur (a ++ [x]) -> valid_str c -> no_sur c ->
+  (x =? 47)%N = false -> startswith [47%N] c = false ->
+  truediv B u ((a ++ [x]) ++ 47%N :: c) = joinpath B u [a ++ [x]; c] false.
+Proof. exact div_two_is_joinpath. Qed.
+Print Assumptions C13_div_two_is_joinpath.
